@@ -3,7 +3,7 @@ chk("C01", "exploration",
     "Trusts the harness's own QR/Jacobi-SVD kit (self-tested at start-up) and the zoo formulas; failures explained by the measured reconstruction error of nalgebra's SVD are reported as known finding KF-1, anything else is a violation.",
     "online certificate + reference-model monitor over generated states", "5/C01")
 chk("C08", "exploration",
-    "Every case (build, updates, fit, statistics) runs in a child process under a CPU-time watchdog with an event stream; panics, signals and cases that do not return within the budget (twice, isolated) are violations. Both overflow-checked and release profiles.",
+    "Every case (build, updates, fit, statistics) runs in a child process under a CPU-time watchdog with an event stream; panics, signals (including allocation-failure aborts) and cases that do not return within the budget (twice, isolated) are violations. Classes: random starts, hostile IEEE-754 values, degenerate tables, near-valid builder programs, zero observations with hostile derivatives, 1e5-sample problems, custom BasisFunction types of arity 11..14. Both overflow-checked and release profiles.",
     "Non-termination is decided in the restated form 'returns within 10 CPU-seconds (30 isolated)'; models honour the trait contract (shapes) by construction.",
     "process-boundary watchdog + panic events over hostile IEEE-754 workloads", "5/C08")
 chk("C09", "fault_enumeration",
@@ -31,27 +31,27 @@ chk("C07", "exploration",
     "kappa-scaled twin tolerances; fitted-alpha comparison only where the fitted point is well identified.",
     "differential twin monitor", "5/C07")
 chk("C10", "exploration",
-    "Long-lived problem vs freshly built problem bitwise after every step of random histories (repeated, failing, non-finite updates, repeated queries, heap churn); same sequences under a poisoning allocator in three modes (child processes); thorough adds valgrind memcheck and Miri over a workload that branches on every output element.",
+    "Long-lived problem vs freshly built problem bitwise after every step of random histories (repeated, failing, non-finite updates, repeated queries, heap churn, complete fits after which the returned problem carries on; histories of parallel problems repeated in a pool of another size); clones moved apart; same sequences under a poisoning allocator in three modes (child processes); thorough adds valgrind memcheck and Miri over a workload that branches on every output element.",
     "Bitwise equality is the property itself (determinism of one computation); the poison allocator initialises memory so memcheck/Miri run with it in pass-through mode.",
     "history-twin monitor + poisoning allocator + memcheck + Miri", "5/C10")
 chk("C04", "exploration",
     "Every generated fit is run twice, as the real LevMarSolver::fit with a ModelSpy call log and as minimize over a ProblemSpy; logs, reports and final parameters must coincide; then Ok <=> successful termination, evaluation budget, and for successful fits the C01 certificate, C02 identity, objective = 1/2|r|^2 and no-worse-than-start.",
-    "Sequential flavour (parallel call logs are schedule dependent); coefficient optimality inherits the KF-1 triage.",
+    "The call-log twin is sequential (parallel call logs are schedule dependent); a separate stream fits through the parallel constructors without the log twin; coefficient optimality inherits the KF-1 triage.",
     "twin-run monitor (real fit vs spied minimize) + final-state oracles", "5/C04")
 chk("C05", "exploration",
     "Fits of the certified families (well-separated decays, Gaussian+decay+offset, decay+offset) from starts within 5%: success, noiseless reproduction, SSQ not above the generating parameters, gradient cosine; failing instances are triaged with the dependency's measured SVD error along the trajectory.",
     "Claim limited to the stated families and ranges; thresholds fixed at design time.",
     "convergence oracle over generated identifiable families", "5/C05")
 chk("C11", "exploration",
-    "Parallel problems run inside explicit rayon pools (1..16 threads) with seeded delays in the derivative calls; compared with the sequential problem, across pool sizes/schedules (bitwise) and before/after into_sequential; schedule signatures counted from the ModelSpy log; thorough adds ThreadSanitizer (build-std) and Miri with many seeds.",
+    "Parallel problems run inside explicit rayon pools (1..16 threads) with seeded delays in the derivative calls; compared with the sequential problem (also with a failing derivative, with non-finite observations, and for a model over a complex scalar type), across pool sizes/schedules (bitwise) and before/after into_sequential; schedule signatures counted from the ModelSpy log; thorough adds ThreadSanitizer (build-std) and Miri with many seeds.",
     "rayon's scheduler is not controlled; a run in which no Jacobian used two workers is inconclusive (exit 2), not a pass.",
     "differential monitor over pool sizes and injected delays + TSan + Miri", "5/C11")
 chk("C13", "exploration",
-    "On every successful fit_with_statistics: diagonal >= 0, accessors bit-equal to the diagonal segments, correlation == normalised covariance with unit diagonal and entries in [-1,1]; where H^T H is numerically positive definite: Cov·(H^T H) == sigma^2 I with H built by the oracle in the documented order, and symmetry.",
+    "On every successful fit_with_statistics: diagonal >= 0, accessors bit-equal to the diagonal segments, correlation == normalised covariance with unit diagonal and entries in [-1,1]; where H^T H is numerically positive definite: Cov·(H^T H) == sigma^2 I with H built by the oracle in the documented order and sigma^2 from the oracle's own residual (also compared with reduced_chi2 directly), and symmetry. Builder-made models are also fitted without the harness's forwarding wrapper, and for Clone-able models a clone of the statistics object is judged.",
     "Value oracles are inconclusive for numerically singular normal matrices; +inf variances (range overflow of the scalar type) are inconclusive.",
     "certificate monitor Cov·(H^T H)=sigma^2 I + structural invariants on every Ok", "5/C13")
 chk("C14", "exploration",
-    "40 probabilities per successful fit with 1..30 degrees of freedom: length, finiteness, sign, monotonicity in p, documented panic outside (0,1); squared radius against the oracle's own Student-t quantile and the unweighted oracle Jacobian where the normal matrix is positive definite.",
+    "40 probabilities per successful fit with 1..30 degrees of freedom: length, finiteness, sign, monotonicity in p, documented panic outside (0,1); squared radius against the oracle's own Student-t quantile, the unweighted oracle Jacobian and (i) the library's own covariance on every fit, (ii) the oracle's own sigma^2 (H^T H)^-1 with sigma^2 from the oracle's residual where the normal matrix is positive definite; the whole monitor runs in-process under the checked profile and again in child processes of the release profile.",
     "Own t-quantile (self-tested against a committed scipy table); 4e-4 relative tolerance for the library's third-party quantile.",
     "reference-model monitor with independent Student-t quantile", "5/C14")
 chk("C15", "exploration",
@@ -59,7 +59,7 @@ chk("C15", "exploration",
     "Exhaustive only within the stated alphabet and length; the specification is silent about empty-string names.",
     "bounded exhaustive enumeration + guided/random programs against an executable specification", "5/C15")
 chk("C16", "exploration",
-    "Generated builder specifications (parameter lists 1..10 in random order, arities 1..10 over ordered subsets, derivatives supplied in random order, invariant functions anywhere) with asymmetric position-coded closures; eval and every eval_partial_deriv compared bitwise with the same closures called by an oracle that routes by name; zero columns exact; params round-trip. Thorough adds Miri.",
+    "Generated builder specifications (parameter lists 1..10 in random order - every 40th model 11..257 parameters -, arities 1..10 over ordered subsets and 11..14 through a user type implementing BasisFunction, derivatives supplied in random order, invariant functions anywhere) with asymmetric position-coded closures; eval and every eval_partial_deriv compared bitwise with the same closures called by an oracle that routes by name; zero columns exact; params round-trip. Thorough adds Miri.",
     "Bitwise comparison of the same closure on the same arguments; the oracle shares the closure code but not the routing.",
     "reference-model monitor with position-coded closures (+ Miri)", "5/C16")
 chk("C17", "exploration",
@@ -71,6 +71,6 @@ chk("C18", "exploration",
     "Builder error kinds are read from their Debug form (the type is not nameable outside the crate).",
     "exhaustive shape enumeration against an executable specification + one-ulp threshold probes", "5/C18")
 chk("C19", "exploration",
-    "Statistical monitor: per design K Gaussian noise realisations (4000 quick / 100000 thorough), coverage of the band per sample and of t-intervals per parameter at p in {0.5,0.683,0.9,0.99} and the mean reduced chi2, each against 6-sigma binomial bounds plus 0.004 slack.",
+    "Statistical monitor: per design K Gaussian noise realisations (30000 quick / 1000000 thorough; decays, Gaussian peak, oscillating basis, signed weights, large units, one design with > 2048 samples through the parallel constructor), coverage of the band per sample and of t-intervals per parameter at p in {0.1,0.3,0.5,0.683,0.9,0.99} and the mean reduced chi2, each against 6-sigma binomial bounds plus a slack of 0.008*sqrt(p(1-p)).",
     "A pass means 'not distinguishable from calibrated at resolution ~0.01'; false-alarm rate designed < 1e-5 per run.",
     "statistical coverage monitor over repeated noise realisations", "5/C19")
